@@ -39,6 +39,10 @@ type c32RealOp struct {
 	Up       bool   `json:"up,omitempty"`       // set: backend answers (with a new status text) / drops connections
 	Proto    int    `json:"proto,omitempty"`    // req: client protocol
 	RouteGen uint64 `json:"routeGen,omitempty"` // req: route snapshot generation
+	// req, cache on: the requesting client has hung up already (its connection
+	// context is cancelled). A cached fetch is shared by every client that asks for
+	// the key, so it must not depend on the client that happens to start it.
+	Gone bool `json:"gone,omitempty"`
 }
 
 type c32RealCase struct {
@@ -140,10 +144,16 @@ func (b *c32Backend) serve() {
 type c32Client struct {
 	netmc.MinecraftConn
 	conn net.Conn
+	ctx  context.Context
 }
 
-func (c *c32Client) Conn() net.Conn           { return c.conn }
-func (c *c32Client) Context() context.Context { return context.Background() }
+func (c *c32Client) Conn() net.Conn { return c.conn }
+func (c *c32Client) Context() context.Context {
+	if c.ctx != nil {
+		return c.ctx
+	}
+	return context.Background()
+}
 
 type c32AddrConn struct{ net.Conn }
 
@@ -262,6 +272,45 @@ func c32RunReal(c c32RealCase) (res verifkit.Result) {
 			a, bpipe := net.Pipe()
 			client := &c32Client{conn: c32AddrConn{a}}
 			before := fetchCounts()
+			if op.Gone && c.CacheOn {
+				// The client's own answer is of no interest (it left). What matters is the
+				// shared state it leaves behind: the cached fetches it started must run to
+				// completion against the backends, independent of that client.
+				ctx, cancel := context.WithCancel(context.Background())
+				cancel()
+				client.ctx = ctx
+				labels["req:client-already-gone"] = true
+				_, _, _ = ResolveStatusResponseWithGeneration(5*time.Second, op.RouteGen, routes, logr.Discard(), client, hs, hsCtx, reqCtx, sm)
+				_ = a.Close()
+				_ = bpipe.Close()
+				// backends in order up to the first one with a cached answer were (or are being) asked
+				for j := 0; j < n; j++ {
+					k := ckey{j, p, op.RouteGen}
+					if cv, has := cache[k]; has {
+						if cv.ok {
+							break
+						}
+						continue // cached failure: passed over without a fetch
+					}
+					pk := pingKey{addrs[j], proto.Protocol(p), op.RouteGen}
+					deadline := time.Now().Add(10 * time.Second)
+					for pingCache.get(pk) == nil {
+						if time.Now().After(deadline) {
+							return verifkit.Result{Inconclusive: true, Labels: []string{"inconclusive:background-fetch-not-cached"}}
+						}
+						time.Sleep(time.Millisecond)
+					}
+					b := backends[j]
+					b.mu.Lock()
+					ok, st, contacted := b.up, b.statusJSON(b.ver), b.fetches-before[j]
+					b.mu.Unlock()
+					if contacted != 1 {
+						return verifkit.Fail("fetch:depends-on-requesting-client", "op %d: a status request from a client that had already hung up left a cached result for backend %d (protocol %d, route generation %d) although the backend was asked %d times: the shared fetch depends on the client that started it", oi, j, p, op.RouteGen, contacted)
+					}
+					cache[k] = c32Cached{ok, st}
+				}
+				continue
+			}
 			_, resp, err := ResolveStatusResponseWithGeneration(5*time.Second, op.RouteGen, routes, logr.Discard(), client, hs, hsCtx, reqCtx, sm)
 			_ = a.Close()
 			_ = bpipe.Close()
@@ -391,7 +440,7 @@ func c32GenReal(t *rapid.T) c32RealCase {
 				c32RealOp{Kind: "req", Proto: 765, RouteGen: rapid.SampledFrom([]uint64{1, 1, 2}).Draw(t, "crg")})
 		case k < 5:
 			c.Ops = append(c.Ops, c32RealOp{Kind: "req", Proto: rapid.SampledFrom([]int{765, 765, 47}).Draw(t, "proto"),
-				RouteGen: rapid.SampledFrom([]uint64{1, 1, 2}).Draw(t, "rg")})
+				RouteGen: rapid.SampledFrom([]uint64{1, 1, 2}).Draw(t, "rg"), Gone: rapid.IntRange(0, 3).Draw(t, "gone") == 0})
 		case k < 8:
 			c.Ops = append(c.Ops, c32RealOp{Kind: "set", Backend: rapid.IntRange(0, n-1).Draw(t, "b"), Up: rapid.Bool().Draw(t, "setUp")})
 		default:
@@ -403,6 +452,6 @@ func c32GenReal(t *rapid.T) c32RealCase {
 
 func c32Real(t *testing.T) {
 	verifkit.Check(t, "C32", "real",
-		"1-3 scripted loopback backends (answer the status exchange with a versioned status / drop the connection), one route (ping cache 1h or disabled, fallback configured or not), 2-12 ops over {status request (protocol 765/47, route generation 1/2) through ResolveStatusResponseWithGeneration, change a backend's state+status, ResetPingCache}; oracle: reference walk over the backends in order with a per (backend, protocol, route generation) cache cleared by reset: exact expected status, backend asked at most once and never while its status is cached, fallback iff every backend failed. Non-trivial = a request answered after a reset although a cached backend's status had changed, or a fallback over >=2 failed backends",
+		"1-3 scripted loopback backends (answer the status exchange with a versioned status / drop the connection), one route (ping cache 1h or disabled, fallback configured or not), 2-12 ops over {status request (protocol 765/47, route generation 1/2; with the cache on, a quarter from a client whose connection context is already cancelled) through ResolveStatusResponseWithGeneration, change a backend's state+status, ResetPingCache}; oracle: reference walk over the backends in order with a per (backend, protocol, route generation) cache cleared by reset: exact expected status, backend asked at most once and never while its status is cached, fallback iff every backend failed. Non-trivial = a request answered after a reset although a cached backend's status had changed, or a fallback over >=2 failed backends",
 		c32GenReal, c32RunReal)
 }
